@@ -241,6 +241,9 @@ impl Crate {
                             Err(e) => {
                                 if !mname.contains("test") {
                                     self.macro_notes.push(format!("{}!: {}", mname, e));
+                                    // what this invocation generates (an impl, a method that unchanged call sites now
+                                    // resolve to) is not seen by the translator
+                                    self.global_problems.push(format!("item-level invocation of the crate's macro `{}!` cannot be expanded by the translator ({})", mname, e));
                                 }
                             }
                         }
